@@ -4,6 +4,7 @@
 package c09
 
 import (
+	"container/list"
 	"encoding/json"
 	"fmt"
 	"os"
@@ -41,7 +42,8 @@ type call struct {
 	H       int // hour (0..23) or step
 }
 
-var callKinds = []string{"SolarToLunar", "NewLunar", "LunarYearTable", "LunarMonthNext", "BadLunarMonth", "BadLunarDay", "BadSolar", "FarYear", "ReverseBaZi", "Holiday", "EdgeYear", "TermTable", "SolarWeekWalk"}
+var callKinds = []string{"SolarToLunar", "NewLunar", "LunarYearTable", "LunarMonthNext", "BadLunarMonth", "BadLunarDay", "BadSolar", "FarYear", "ReverseBaZi", "Holiday", "EdgeYear", "TermTable", "SolarWeekWalk",
+	"Fortune", "EightCharFull", "TaoFoto", "CivilUnits", "HolidayViews", "TwiceInARow"}
 
 func digestString(d map[string]string) string {
 	ks := make([]string, 0, len(d))
@@ -129,6 +131,51 @@ func run(c call) (out string) {
 	case "SolarWeekWalk":
 		w := calendar.NewSolarWeekFromYmd(y, c.B, c.C, c.H%7).Next(c.H-12, false)
 		return w.GetFirstDay().ToYmd()
+	case "Fortune": // great / annual / monthly / minor fortunes of a chart
+		ec := calendar.NewSolar(y, c.B, c.C, c.H, 15, 0).GetLunar().GetEightChar()
+		yun := ec.GetYunBySect(c.H%2, 1+c.C%2)
+		var sb strings.Builder
+		fmt.Fprintf(&sb, "%v %d/%d/%d/%d %s|", yun.IsForward(), yun.GetStartYear(), yun.GetStartMonth(), yun.GetStartDay(), yun.GetStartHour(), yun.GetStartSolar().ToYmdHms())
+		for i, d := range yun.GetDaYun() {
+			fmt.Fprintf(&sb, "D%d:%s %d-%d;", i, d.GetGanZhi(), d.GetStartYear(), d.GetEndYear())
+			if i == 1+c.C%8 {
+				for _, ln := range d.GetLiuNian() {
+					fmt.Fprintf(&sb, "N%d:%s[", ln.GetYear(), ln.GetGanZhi())
+					for _, ly := range ln.GetLiuYue() {
+						sb.WriteString(ly.GetGanZhi())
+					}
+					sb.WriteString("]")
+				}
+				for _, x := range d.GetXiaoYun() {
+					sb.WriteString(x.GetGanZhi())
+				}
+			}
+		}
+		return sb.String()
+	case "EightCharFull":
+		ec := calendar.NewSolar(y, c.B, c.C, c.H, 45, 0).GetLunar().GetEightChar()
+		return digestString(dig.Of(ec, 0))
+	case "TaoFoto":
+		l := calendar.NewSolar(y, c.B, c.C, c.H, 0, 0).GetLunar()
+		return digestString(dig.Of(l.GetTao(), 1)) + digestString(dig.Of(l.GetFoto(), 1))
+	case "CivilUnits":
+		s := calendar.NewSolar(y, c.B, c.C, c.H, 0, 0)
+		return digestString(dig.Of(s, 0)) + digestString(dig.Of(calendar.NewSolarWeekFromYmd(y, c.B, c.C, c.H%7), 0)) + digestString(dig.Of(calendar.NewSolarMonthFromYm(y, c.B), 0))
+	case "HolidayViews":
+		yy := 2001 + y%25
+		var ss []string
+		for _, l := range []*list.List{HolidayUtil.GetHolidaysByYm(yy, c.B), HolidayUtil.GetHolidaysByTargetYmd(yy, []int{1, 5, 10}[c.C%3], 1), HolidayUtil.GetHolidaysByYear(yy)} {
+			for e := l.Front(); e != nil; e = e.Next() {
+				ss = append(ss, e.Value.(*HolidayUtil.Holiday).String())
+			}
+			ss = append(ss, "|")
+		}
+		return strings.Join(ss, ",")
+	case "TwiceInARow": // the same instant converted twice in a row, second answer reported
+		s := calendar.NewSolar(y, c.B, c.C, c.H, 7, 5)
+		_ = s.GetLunar().String()
+		l := s.GetLunar()
+		return fmt.Sprintf("%d/%d/%d %d:%d:%d %s %s", l.GetYear(), l.GetMonth(), l.GetDay(), l.GetHour(), l.GetMinute(), l.GetSecond(), l.GetTimeInGanZhi(), l.GetDayInGanZhiExact())
 	}
 	return "?"
 }
@@ -558,7 +605,39 @@ func childMain() int {
 		return 3
 	}
 	out := childOut{}
+	if os.Getenv("VERIF_C09_COLD") != "" && len(cases) > 0 {
+		// cold start: the very first use of the library in this process is concurrent (no sequential warm-up);
+		// the sequential reference is computed afterwards
+		c := cases[0]
+		got := make([][]string, len(c.Progs))
+		var wg sync.WaitGroup
+		start := make(chan struct{})
+		for g := range c.Progs {
+			wg.Add(1)
+			go func(g int) {
+				defer wg.Done()
+				<-start
+				for _, x := range c.Progs[g] {
+					got[g] = append(got[g], run(x))
+				}
+			}(g)
+		}
+		close(start)
+		wg.Wait()
+		for g := range c.Progs {
+			for i, x := range c.Progs[g] {
+				if want := run(x); want != got[g][i] {
+					out.Failed = fmt.Sprintf("cold start: goroutine %d call %d %+v: first-use concurrent result differs from the sequential one\n seq: %.300q\n con: %.300q", g, i, x, want, got[g][i])
+				}
+			}
+		}
+		out.Programs++
+		cases = cases[1:]
+	}
 	for _, c := range cases {
+		if out.Failed != "" {
+			break
+		}
 		out.Programs++
 		if err := runConcurrent(c); err != nil {
 			out.Failed = err.Error()
@@ -572,6 +651,7 @@ func childMain() int {
 
 type raceCase struct {
 	Cases []concCase
+	Cold  bool // the child's first use of the library is concurrent (first case), no warm-up
 }
 
 var raceFree = ev.Register(&ev.P[raceCase]{
@@ -593,6 +673,9 @@ var raceFree = ev.Register(&ev.P[raceCase]{
 		f.Close()
 		cmd := exec.Command(bin)
 		cmd.Env = append(os.Environ(), "VERIF_C09_CHILD="+f.Name(), "GORACE=halt_on_error=0 exitcode=66")
+		if c.Cold {
+			cmd.Env = append(cmd.Env, "VERIF_C09_COLD=1")
+		}
 		done := make(chan struct{})
 		var out []byte
 		var cerr error
@@ -613,6 +696,10 @@ var raceFree = ev.Register(&ev.P[raceCase]{
 				frag = frag[:1800]
 			}
 			return fmt.Errorf("the race detector reports a data race in library code:\n%s", frag)
+		}
+		if strings.Contains(s, "concurrent map") {
+			i := strings.Index(s, "fatal error")
+			return fmt.Errorf("the child died inside the library: %.500s", s[i:])
 		}
 		if strings.Contains(s, "all goroutines are asleep") {
 			return fmt.Errorf("the child deadlocked (Go runtime: all goroutines are asleep): %.600s", s)
@@ -636,7 +723,13 @@ var raceFree = ev.Register(&ev.P[raceCase]{
 		}
 		return nil
 	},
-	Class: func(c raceCase) ([]string, bool) { return []string{"batch"}, true },
+	Class: func(c raceCase) ([]string, bool) {
+		if c.Cold {
+			return []string{"batch", "coldStart"}, true
+		}
+		return []string{"batch"}, true
+	},
+	Require: []string{"coldStart"},
 })
 
 func TestC09(t *testing.T) {
@@ -705,7 +798,7 @@ func TestC09(t *testing.T) {
 	concurrent.Rapid(ev.Share(ev.Pick(120, 2400)), genConc)
 	// race-detector batches: the same generator, run in the -race child
 	nb := ev.Pick(1, 4)
-	per := ev.Pick(15, 60)
+	per := ev.Pick(5, 40)
 	for b := 0; b < nb; b++ {
 		var cases []concCase
 		ev.RapidRaw("gen-race-batch", per, func(t *rapid.T) { cases = append(cases, genConc(t)) })
@@ -713,6 +806,23 @@ func TestC09(t *testing.T) {
 		cases = append(cases, concCase{Procs: 16, Shared: 2024, SharedT: ref.DT{Y: 2024, M: 2, D: 10, H: 23}, Burst: []string{"GetEightChar", "GetBaZi", "GetTime", "GetFoto"}, Progs: [][]call{
 			{{Kind: "SolarToLunar", A: 2024, B: 1, C: 1}}, {{Kind: "SolarToLunar", A: 2023, B: 1, C: 1}}, {{Kind: "LunarYearTable", A: 2025}}, {{Kind: "NewLunar", A: 2022, B: 1, C: 1}},
 			{{Kind: "TermTable", A: 2021, B: 1, C: 1}}, {{Kind: "LunarMonthNext", A: 2020, B: 4, H: 20}}, {{Kind: "Holiday", A: 19, B: 10, C: 1}}, {{Kind: "BadLunarMonth", A: 2024}}}})
-		raceFree.Eval(raceCase{cases})
+		raceFree.Eval(raceCase{Cases: cases})
+	}
+	// cold-start children: a fresh process whose first library calls run concurrently (lazy package-level
+	// initialisation shows only there)
+	for b := 0; b < ev.Pick(2, 12); b++ {
+		var cases []concCase
+		ev.RapidRaw("gen-cold-batch", 1, func(t *rapid.T) {
+			c := genConc(t)
+			for len(c.Progs) < 8 {
+				c.Progs = append(c.Progs, c.Progs[len(c.Progs)%2])
+			}
+			c.Procs = 16
+			cases = append(cases, c)
+		})
+		if len(cases) > 1 {
+			cases = cases[len(cases)-1:]
+		}
+		raceFree.Eval(raceCase{Cases: cases, Cold: true})
 	}
 }
